@@ -523,7 +523,7 @@ auto density_sketch<T, K, A>::const_iterator::operator++() -> const_iterator& {
 }
 
 template<typename T, typename K, typename A>
-auto density_sketch<T, K, A>::const_iterator::operator++(int) -> const_iterator& {
+auto density_sketch<T, K, A>::const_iterator::operator++(int) -> const_iterator {
   const_iterator tmp(*this);
   operator++();
   return tmp;
